@@ -311,7 +311,8 @@ class FakeSocket:
     def shutdown(self, how):
         if self.state == "closed":
             raise oserror(errno.EBADF)
-        if self.state != "connected":
+        if self.state != "connected" or self.reset:
+            # Linux: a connection the peer has reset is gone; shutdown() on it fails with ENOTCONN (close() still works)
             raise oserror(errno.ENOTCONN)
         if how in (_rs.SHUT_WR, _rs.SHUT_RDWR):
             self._send_fin()
